@@ -40,7 +40,9 @@ from pathlib import Path
 VERIF = Path(__file__).resolve().parent.parent
 REPO = Path(os.environ.get("PPCI_REPO", "/repo"))
 LEAN = VERIF / "lean"
-EVIDENCE = VERIF / "evidence"
+# runs against a scratch tree (PPCI_REPO set: mutation / seeded-change evaluation) must not overwrite the
+# committed evidence, which has to come from runs against /repo itself
+EVIDENCE = VERIF / ("evidence" if REPO == Path("/repo") else "evidence-scratch")
 REPLAYS = VERIF / "replays"
 KNOWN = VERIF / "known_findings.json"
 
